@@ -147,7 +147,7 @@ def gen(rng, knobs):
         else:
             good.append(["barrier"])
     faults = sorted(rng.sample(range(5, 120), rng.choice([0, 0, 0, 1, 2]))) if backend == "sql" else []
-    return {"backend": backend, "preload": pre, "faults": faults,
+    return {"backend": backend, "preload": pre, "faults": faults, "p_buffered": rng.choice([0.0, 0.3, 0.7, 1.0]),
             "clients": [{"script": hostile, "slow": rng.random() < 0.2},
                         {"script": good, "slow": rng.random() < 0.2}],
             "sched": {"client": rng.choice([0.5, 1.0, 3.0]), "sql": rng.choice([0.3, 1.0, 3.0]),
@@ -171,7 +171,7 @@ def run(case, sim):
     backend = case["backend"]
     clients = [{"script": [[i[0]] + ([i[1]] if len(i) > 1 else []) for i in c["script"]], "slow": c.get("slow")}
                for c in case["clients"]]
-    w = relay.RelayWorld(sim, backend, clients, preload=case.get("preload"))
+    w = relay.RelayWorld(sim, backend, clients, preload=case.get("preload"), p_buffered=case.get("p_buffered", 0.0))
     async def arm(world):
         # faults count from the moment the clients connect (a fault while starting up only
         # prevents the start)
